@@ -293,11 +293,18 @@ def _array(R, n, fam, only):
                 p = scratch.fresh()
                 try:
                     try:
-                        cooler.create_cooler(p, bdf, ArrayLoader(bdf, A, chunksize=cs), ordered=True)
+                        loader = ArrayLoader(bdf, A, chunksize=cs)
+                        cooler.create_cooler(p, bdf, loader, ordered=True)
                     except Exception as e:
                         R.mismatch("create-raises:" + type(e).__name__, inner, f"{e!s:.300}")
                         continue
-                    readback(R, inner, p, bins, pix, True)
+                    if readback(R, inner, p, bins, pix, True) and lower == "garbage":
+                        # the same loader object is a re-iterable input: a second creation from it gives the same cooler
+                        try:
+                            cooler.create_cooler(p + "::/again", bdf, loader, ordered=True, mode="a")
+                            readback(R, {**inner, "use": "second creation from the same loader object"}, p, bins, pix, True, uri=p + "::/again")
+                        except Exception as e:
+                            R.mismatch("create-raises:" + type(e).__name__, {**inner, "use": "second"}, f"{e!s:.300}")
                 finally:
                     scratch.rm(p)
     R.sample({"leg": "array", "n": n, "patterns": fam, "lower_triangle": ["zeros", "symmetric", "garbage"], "chunksize": f"1..{n + 1}"})
